@@ -127,6 +127,15 @@ func FromFile(path string) (Index, error) {
 		if line == "" {
 			continue
 		}
+		// Stage files are written back by commit, so they must live inside the
+		// project (paths in the index are relative to the project root).
+		if clean := filepath.Clean(line); filepath.IsAbs(clean) ||
+			clean == ".." || strings.HasPrefix(clean, "../") {
+			return idx, errors.Wrapf(
+				fmt.Errorf("stage %s is outside of the project root", line),
+				errPrefix,
+			)
+		}
 		stg, err := stage.FromFile(line)
 		if err != nil {
 			return idx, errors.Wrap(err, errPrefix)
